@@ -42,6 +42,7 @@ func execCtor(c ctorCase, _ core.Source) (res core.Result) {
 	var got []int64
 	var capacity uint
 	var size int
+	var stage, usable string
 	s := sched.New(src, false)
 	uninstall := s.Install()
 	defer uninstall()
@@ -68,9 +69,32 @@ func execCtor(c ctorCase, _ core.Source) (res core.Result) {
 			return
 		}
 		got, capacity, size = q.AsArray(), q.GetCapacity(), q.GetSize()
+		// the queue just constructed behaves like any other: with room left an AddValue returns without
+		// a consumer, and everything can be removed again
+		if uint(size) < capacity {
+			stage = "AddValue on the constructed queue (it has room)"
+			q.AddValue(-1)
+		}
+		stage = "RemoveHead on the constructed queue"
+		for k := 0; k < size; k++ {
+			if v, ok := q.RemoveHead(); !ok || v != vals[k] {
+				usable = fmt.Sprintf("RemoveHead #%d returned (%d, %v)", k+1, v, ok)
+				return
+			}
+		}
+		stage = ""
 	})
 	r := s.Run()
 	desc := fmt.Sprintf("%s with %d initial values", c.Form, c.N)
+	_ = desc
+	if r.Deadlock && stage != "" {
+		res.Violation = core.Violate("C05/ctor/unusable-queue", "%s returned, but then %s blocks forever (size %d, capacity %d); blocked: %v", desc, stage, size, capacity, r.Blocked)
+		return
+	}
+	if usable != "" {
+		res.Violation = core.Violate("C05/ctor/unusable-queue", "%s: %s", desc, usable)
+		return
+	}
 	if r.Deadlock {
 		res.Violation = core.Violate("C05/ctor/self-deadlock", "%s never returns: the constructing goroutine blocks on the queue's own capacity; blocked: %v", desc, r.Blocked)
 		return
